@@ -40,6 +40,7 @@ CONSTANTS
   MULT,       \* feemarket Params.MinGasMultiplier (LegacyDec, scaled by PREC)
   BLOCKGAS,   \* consensus Block.MaxGas; 0 = unlimited (-1 in the code)
   GATEWAY,    \* the party configured as assets Params.ExocoreLzAppAddress
+  FIX,        \* gas schedule of the storage fixture "c" (London): [exec, cold, noop, set, reset, clear, quot]
   DEVS        \* named deviations of the code from the property that the model reproduces
 
 Parties == ACCTS \cup CONTRACTS
@@ -196,6 +197,30 @@ Effects(st, t, x) ==
 (* returns [st, code, gu (gas on the tx gas meter = ResponseDeliverTx.      *)
 (* GasUsed), vmfail]                                                       *)
 (***************************************************************************)
+(***************************************************************************)
+(* Gas of a SUCCESSFUL call of the storage fixture "c" (SSTORE(0, word) and *)
+(* a fixed tail of cheap opcodes), the one place where the EVM's refund      *)
+(* counter is not zero.  go-ethereum gasSStoreEIP2929/3529 for a single      *)
+(* SSTORE whose slot is untouched in this tx (original = current):          *)
+(*   current = new           noop                                          *)
+(*   current = 0, new # 0    set                                            *)
+(*   current # 0             reset; new = 0 additionally earns the refund   *)
+(*                           counter FIX.clear (SstoreClearsScheduleRefund)  *)
+(* plus FIX.cold unless the slot is in the tx's access list (type "al").     *)
+(* ApplyMessageWithConfig: temporaryGasUsed = intrinsic + execution (RAW);   *)
+(* refund = GasToRefund(counter, RAW, quot) = min(counter, RAW \div quot);   *)
+(* temporaryGasUsed -= refund; only THEN the minimum-gas floor is applied.   *)
+(***************************************************************************)
+CRaw(s, t) ==
+  LET cur == s.stor["c"] IN
+  NAdd(NAdd(t.intr, FIX.exec),
+       NAdd(IF t.ty = "al" THEN 0 ELSE FIX.cold,
+            IF NEq(cur, t.word) THEN FIX.noop ELSE IF NIsZero(cur) THEN FIX.set ELSE FIX.reset))
+CCounter(s, t) == IF ~NIsZero(s.stor["c"]) /\ NIsZero(t.word) THEN FIX.clear ELSE 0
+CGasEvm(s, t)  == LET raw == CRaw(s, t) IN NSub(raw, NMin(CCounter(s, t), NQuo(raw, FIX.quot)))
+\* gas consumed by the EVM after the refund counter: computed for the storage fixture, an input otherwise
+GasEvm(s, t, x) == IF t.to = "c" /\ ~x.vmfail THEN CGasEvm(s, t) ELSE x.gasEvm
+
 Res(st, code, gu, vmfail) == [st |-> st, code |-> code, gu |-> gu, vmfail |-> vmfail]
 
 Deliver(st, t, x) ==
@@ -212,7 +237,7 @@ Deliver(st, t, x) ==
   IF t.gas < t.intr THEN
      Res([s1 EXCEPT !.bg = NAdd(@, t.gas)], IF over(t.gas) THEN 11 ELSE 1, t.gas, FALSE)
   ELSE
-  LET gasUsed == NMax(MinUsed(t), x.gasEvm)
+  LET gasUsed == NMax(MinUsed(t), GasEvm(s1, t, x))
       \* message cache: EVM effects (only if no vm error), RefundGas at the purchase price
       s2 == IF x.vmfail THEN s1 ELSE Effects(s1, t, x)
       s3 == Move(s2, "fc", t.s, NMul(NSub(t.gas, gasUsed), EffPrice(t, st.bf)))
@@ -276,7 +301,7 @@ DeliverBatch(st, ts, xs) ==
         IF acc.err THEN acc ELSE
         LET t == ts[i]  x == xs[i] IN
         IF t.gas < t.intr THEN [acc EXCEPT !.err = TRUE] ELSE
-        LET gasUsed == NMax(MinUsed(t), x.gasEvm)
+        LET gasUsed == NMax(MinUsed(t), GasEvm(acc.st, t, x))
             s2 == IF x.vmfail THEN acc.st ELSE Effects(acc.st, t, x)
             s3 == Move(s2, "fc", t.s, NMul(NSub(t.gas, gasUsed), EffPrice(t, st.bf)))
             \* DEV_BatchCreateResetsNonce (F-C19-3): the creation path of ApplyMessageWithConfig "takes over the nonce
